@@ -14,6 +14,7 @@ import (
 	"bytes"
 	"fmt"
 	"math/big"
+	"sort"
 	"strings"
 	"sync"
 
@@ -99,9 +100,50 @@ type runner struct {
 	s    *Subject
 	p    Plan
 	keys []keyPair
+	col  Collector
 
 	mu      sync.Mutex
 	sampled map[string]bool
+}
+
+// Collector gathers the violations found by parallel workers and hands them to the
+// engine in case-id order, so that the case recorded for a key (the engine keeps the
+// first one) is the same on every run.
+type Collector struct {
+	mu sync.Mutex
+	vs []pending
+}
+
+type pending struct {
+	key, caseID, what string
+	payload           interface{}
+}
+
+func (c *Collector) Add(key, caseID, what string, payload interface{}) {
+	c.mu.Lock()
+	c.vs = append(c.vs, pending{key, caseID, what, payload})
+	c.mu.Unlock()
+}
+
+// Flush reports the collected violations sorted by (key, length of case id, case id).
+func (c *Collector) Flush(r *verifmc.Run) {
+	c.mu.Lock()
+	vs := c.vs
+	c.vs = nil
+	c.mu.Unlock()
+	sort.SliceStable(vs, func(i, j int) bool {
+		a, b := vs[i], vs[j]
+		if a.key != b.key {
+			return a.key < b.key
+		}
+		if len(a.caseID) != len(b.caseID) {
+			return len(a.caseID) < len(b.caseID)
+		}
+		return a.caseID < b.caseID
+	})
+	for _, v := range vs {
+		r.Violation(v.key, v.caseID, v.what, v.payload)
+	}
 }
 
 func caseBase(s *Subject, si, ml, ci int) string {
@@ -128,7 +170,7 @@ func (x *runner) viol(class, outcome, caseID, what string, a *alt, seed []byte) 
 	} else {
 		payload = map[string]interface{}{"subject": x.s.Name, "seed": verifmc.FullHex(seed)}
 	}
-	x.r.Violation(fmt.Sprintf("%s|%s|%s|%s", x.r.Prop, x.s.Name, class, outcome), caseID, what, payload)
+	x.col.Add(fmt.Sprintf("%s|%s|%s|%s", x.r.Prop, x.s.Name, class, outcome), caseID, what, payload)
 }
 
 // Run enumerates the plan on one subject.
@@ -144,6 +186,7 @@ func Run(r *verifmc.Run, s *Subject, p Plan) {
 		}); pn {
 			x.viol("keygen", "panic:"+verifmc.PanicClass(what), fmt.Sprintf("%s/s%d|keygen", s.Name, i),
 				fmt.Sprintf("%s: key derivation from seed #%d panicked: %s", s.Name, i, what), nil, sd)
+			x.col.Flush(r)
 			return
 		}
 		r.Eval(1)
@@ -175,6 +218,7 @@ func Run(r *verifmc.Run, s *Subject, p Plan) {
 		}
 	}
 	r.Set("bases_"+s.Name, bi)
+	x.col.Flush(r)
 }
 
 func (x *runner) ctxOf(ci int) string {
@@ -636,6 +680,8 @@ func CrossModes(r *verifmc.Run, family []*Subject, seedIdx []int, msgLens []int)
 			}
 		}
 	}
+	var col Collector
+	defer col.Flush(r)
 	verifmc.ParallelFor(len(jobs), func(ji int) {
 		j := jobs[ji]
 		sa := family[j.a]
@@ -677,10 +723,10 @@ func CrossModes(r *verifmc.Run, family []*Subject, seedIdx []int, msgLens []int)
 					"seed": verifmc.FullHex(seeds[j.si]), "msg": verifmc.Hex(msg), "sig": verifmc.Hex(sig)}
 				switch {
 				case pn:
-					r.Violation(fmt.Sprintf("%s|%s|mode-as-%s|panic:%s", r.Prop, sa.Name, sb.Name, verifmc.PanicClass(what)), id, id+": verification panicked: "+what, payload)
+					col.Add(fmt.Sprintf("%s|%s|mode-as-%s|panic:%s", r.Prop, sa.Name, sb.Name, verifmc.PanicClass(what)), id, id+": verification panicked: "+what, payload)
 					r.Outcome("mode->PANIC")
 				case ok:
-					r.Violation(fmt.Sprintf("%s|%s|mode-as-%s|accepted", r.Prop, sa.Name, sb.Name), id,
+					col.Add(fmt.Sprintf("%s|%s|mode-as-%s|accepted", r.Prop, sa.Name, sb.Name), id,
 						fmt.Sprintf("%s: a %s signature (ctx %d bytes) verifies as %s with a context of %d bytes", id, sa.Name, len(ctxA), sb.Name, len(c)), payload)
 					r.Outcome("mode->ACCEPTED")
 				default:
